@@ -37,6 +37,8 @@ ASSUMPTIONS = [
   "tier: rational timings below 2^22 s (file shapes: unbounded digit counts where the pattern allows them)",
   "proof tier: `no exception` is decided by exhaustive exploration of the feasible paths of the real code on the stated shapes (path "
   "feasibility by z3/cvc5); a path whose feasibility stays unknown is explored as if feasible",
+  "A-FLOAT: float overflow is not modelled, so `any digit string` in the file shapes is proved for times below 1.7e308 s; times of several "
+  "hundred digits are inputs of the bounded tier (DIRECTED), where they exposed two OverflowErrors (repaired)",
   "modular step: ClockTime.from_seconds is replaced at its call sites by its contract (contracts/callee.py); the contract is discharged for "
   "the real body by three harnesses of the same run (exact rational arguments only; float arguments run the real body)",
   "A-STDLIB-RAISES: exceptions raised by the XML parser itself (xml.etree.ElementTree.parse, no ttconv frame on the stack) count as "
